@@ -10,6 +10,17 @@ COMMON_NOTE = ("Trusted base: pyvc engine (AST transform T1-T3 of the real sourc
                "lift to C), A3 (integer powers), A4 (path forking via z3), A5 (numpy shim contracts, listed per run in evidence.trusted_base). ")
 
 CLAIMED = {
+    "C38": dict(
+        category="proof",
+        text=("Exceptional postconditions of the real EKO.close / dump / __exit__, Builder.__exit__ / __post_init__ / build, Inventory.__setitem__ and InternalPaths.bootstrap, run unmodified over a "
+              "ghost file system (POSIX call contracts, abstract contents): a whole 'new EKO' session (create, bootstrap, two operators, leave the context) and an 'edit' session are executed once per "
+              "fault point -- EVERY disk-changing operation (18 resp. 9; pairs in the thorough tier) -- and fault-free. After any failure the archive path is absent / holds OLD completely or holds the "
+              "complete new archive, never an incomplete tar; a fault-free re-run on the same path succeeds; an exception inside the context leaves the archive untouched. One defect repaired by a fix "
+              "commit (close removed the archive before dumping)."),
+        note=COMMON_NOTE + "Relative to the assumed file-system call contracts of contracts/ghostfs.py; process crashes (no exception) and the individual computation steps of a real solve are not enumerated. The sessions are concrete, the contents abstract.",
+        technique="contract-based verification of exceptional postconditions: exhaustive enumeration of the crash points of the real code over a ghost file system with assumed call contracts",
+        design_ref="DESIGN.md section 2, C38",
+    ),
     "C04": dict(
         category="proof",
         text=("Dispatch-layer clauses over the COMPLETE finite configuration space (QCD order 1-4 x QED order 0-2 x 8 methods x 3 scale-variation modes x threshold flag x "
